@@ -293,6 +293,21 @@ def oracle(ctx, rng, n):
                 ctx.violation("c17-data-differs:%s" % key, "internal data differ between SI and (%s, %s, %s) input: %s = %r vs %r"
                               % (lu, tu, mu, bad[0][0], bad[0][1], bad[0][2]), units=(lu, tu, mu), differing=bad[:8], case=c2)
                 continue
+            # every unit combination: the set-up built from it switches axial regions on mesh planes - a region bound that
+            # is off by an ulp after conversion must not move the switch to a neighbouring step
+            try:
+                rq = dassh.Reactor(other, path=d1, write_output=False)
+                planes = set(float(x) for x in rq.z)
+                off = [(a.id, float(b)) for a in rq.assemblies for b in a.region_bnd[1:] if float(b) not in planes]
+                ctx.count("setups_built")
+                if off:
+                    ctx.violation("c17-region-bound-off-plane", "input in (%s, %s, %s): region bound %.17g of assembly %d is not one of "
+                                  "the axial planes (nearest %.17g): the region switch happens at a different step than with SI input"
+                                  % (lu, tu, mu, off[0][1], off[0][0], min(planes, key=lambda x: abs(x - off[0][1]))),
+                                  units=(lu, tu, mu), case=c2)
+                    continue
+            except SystemExit:
+                ctx.count("setup_rejected")
             # same mesh and temperatures (one combination per case is swept)
             if (lu, tu, mu) == picks[0]:
                 try:
